@@ -103,6 +103,22 @@ func drawC09(src *vs.Src) *c09Params {
 			p.Raw[0] = byte(20 + src.Intn(5))
 			p.Raw[1], p.Raw[2] = 1, 1
 		}
+		if src.Bool(1, 3) {
+			// one exactly framed record with a body of a boundary length (empty, around one to five cipher blocks),
+			// possibly behind the ChangeCipherSpec or the Finished of the scripted side - where it meets the
+			// record protection
+			p.Step = src.Intn(9)
+			L := pickInt(src, []int{0, 1, 15, 16, 17, 31, 32, 33, 47, 48, 49, 63, 64, 65, 80})
+			hdr := []byte{byte(20 + src.Intn(5)), 1, 1}
+			if p.Stack == DTLCP {
+				hdr = append(hdr, 0, byte(src.Intn(2)), 0, 0, 0, 0, 0, byte(src.Intn(8)))
+			}
+			hdr = append(hdr, byte(L>>8), byte(L))
+			p.Raw = hdr
+			for i := 0; i < L; i++ {
+				p.Raw = append(p.Raw, byte(src.Intn(256)))
+			}
+		}
 	case 8:
 		p.Mode = "certs"
 		pool := []string{"server_sig", "server_enc", "rsa_sig", "p256_sig", "p256_enc", "ed25519_sig", "client_sig", "client_enc"}
